@@ -30,7 +30,14 @@
 #define VERIF_T 2
 #endif
 
-struct item { int v; };
+// the pooled type has a constructor and a destructor that really write into the object; the destructor contains one atomic
+// operation (= one context-switch point), as the destructor of any type that owns shared state does
+static atomics::atomic<int> dtor_marker;
+struct item {
+    int v;
+    item() : v( 0 ) {}
+    ~item() { dtor_marker.fetch_add( 1, atomics::memory_order_relaxed ); v = -1; }
+};
 struct pool_traits : public cds::memory::vyukov_queue_pool_traits {
     typedef cds::opt::v::uninitialized_static_buffer< item, CAP > buffer;
     typedef cds::backoff::empty back_off;
